@@ -109,6 +109,7 @@ type Scenario struct {
 	BarrierN      int            `json:"barrier_n,omitempty"`
 	BudgetMs      int            `json:"budget_ms,omitempty"`
 	LeakCheck     bool           `json:"leak_check,omitempty"`
+	ZeroUnknown   bool           `json:"zero_unknown,omitempty"` // pass zero values for parameter types outside the registry
 }
 
 type SlotOut struct {
@@ -149,6 +150,7 @@ type Outcome struct {
 	CallGid       int64     `json:"call_gid,omitempty"`
 	Dirty         bool      `json:"dirty,omitempty"`
 	ParamTypes    []string  `json:"param_types,omitempty"`
+	UnknownParams []string  `json:"unknown_params,omitempty"`
 	DurUs         int64     `json:"dur_us"`
 }
 
@@ -546,6 +548,11 @@ func Execute(sc *Scenario) *Outcome {
 			}
 		}
 		if !found {
+			if sc.ZeroUnknown {
+				args = append(args, reflect.Zero(t))
+				o.UnknownParams = append(o.UnknownParams, t.String())
+				continue
+			}
 			o.SetupErr = "parameter type not in the declaration's type universe: " + t.String()
 			return o
 		}
